@@ -1,6 +1,21 @@
 from vp_check import Ob
 
-META = dict(not_decided=[], assumptions=[])
+META = dict(
+    not_decided=[
+        'beltPolyMul == GF(2^128) product for all operand pairs: no verdict in 300 s (cadical, kissat, z3) at B_PER_W = 64 and 32; thorough tier retries with 600 s; DWP/CHE are checked over an uninterpreted product',
+        'monolithic miter beltBlockEncr2 == standard over the real S-box: no verdict in 600 s; replaced by the chain G (all 2^32) + wiring over uninterpreted G + exported function == macro (all decided)',
+        'beltFMTCalcB: ~20 ms of solver time per value of mod, ~1300 s per count; quick covers count 160 on mod in [49152, 53247] and [61440, 65536], thorough the counts 1,2,3,8,64,150,159,160,161,299,300 on the whole mod domain; the other counts <= 300 are not run',
+        'FMT StepE/StepD, beltStr2Bin/beltBin2Str radix conversion; WBL as a stand-alone mechanism vs the standard (only Unwrap(Wrap) via KWP); belt-hash, BDE, SDE, KRP, HMAC, PBKDF2 vs the standard (their chunking is C10)',
+        'DWP/CHE/KWP outputs octet-for-octet against a model of the standard (decided: Unwrap inverts Wrap, Unwrap accepts exactly the outputs of Wrap; DWP keystream == belt-ctr)',
+        'message lengths beyond the stated ranges; big-endian code paths (#if OCTET_ORDER == BIG_ENDIAN) and B_PER_S < 32 paths are not compiled on this host',
+        'latent: beltCHEUnwrap allocates blobCreate(beltDWP_keep()) instead of beltCHE_keep(); sizeof(belt_dwp_st) == sizeof(belt_che_st) == 160 here, so no overrun in this configuration'],
+    assumptions=[
+        'the S-box table beltH() is the appendix data of STB 34.101.31 (additionally checked against its LFSR generator, c01_blk_Hgen)',
+        'reference algorithms (block encryption/decryption 6.1, key expansion, ECB/CBC with stealing, CFB, CTR, MAC with phi1/phi2/psi) written from the standard in harness/C01/*.c',
+        'modes/AEAD: block cipher = uninterpreted bijection (stubs/belt_block_uf.c); an equality proved for every bijection holds for belt-block',
+        'memWipe replaced by a no-op and memIsDisjoint2 by an object-aware model in the mode/AEAD obligations (functional results do not depend on them); blob pages of 1 octet (BEE2_VERIF_BLOB_EXACT)',
+        'beltFMTCalcB: zzDiv replaced by one 128-bit integer division (stubs/zzdiv_u128.c, contract of C05); thresholds floor(2^(64b/c)) computed with exact integer roots in props/C01.py'],
+)
 
 CORE = ['src/core/mem.c', 'src/core/util.c', 'src/core/u32.c', 'src/core/u64.c', 'src/core/u16.c', 'src/core/word.c', 'src/core/blob.c']
 B = 'src/crypto/belt/'
@@ -21,10 +36,10 @@ def block_obs(tier):
         return Ob(**d)
     obs.append(k('Hgen', 'h_Hgen', 'all 256 table positions', ['beltH']))
     obs.append(k('G', 'h_G', 'all 2^32 arguments, r = 5, 13, 21', ['G5', 'G13', 'G21 (macros of belt_block.c)']))
-    obs.append(k('R_e', None, 'tacts i = 1..8, all (a,b,c,d) and all theta (2^384 inputs each)', ['macro R', 'subkey_e'],
-                 instances=[('h_Re_%d' % i, '%d, 0' % i) for i in range(1, 9)], timeout=400))
-    obs.append(k('R_d', None, 'tacts i = 1..8, all (a,b,c,d) and all theta (2^384 inputs each)', ['macro R', 'subkey_d'],
-                 instances=[('h_Rd_%d' % i, '%d, 1' % i) for i in range(1, 9)], timeout=400))
+    obs.append(k('R_e', None, ('tact i = 1' if q else 'tacts i = 1..8') + ', all (a,b,c,d) and all theta (2^384 inputs each)', ['macro R', 'subkey_e'],
+                 instances=[('h_Re_%d' % i, '%d, 0' % i) for i in ((1,) if q else range(1, 9))], timeout=400))
+    obs.append(k('R_d', None, ('tact i = 8' if q else 'tacts i = 1..8') + ', all (a,b,c,d) and all theta (2^384 inputs each)', ['macro R', 'subkey_d'],
+                 instances=[('h_Rd_%d' % i, '%d, 1' % i) for i in ((8,) if q else range(1, 9))], timeout=400))
     ufn = ['G5/G13/G21 uninterpreted (harness-local)']
     obs.append(k('wire_E', 'h_wireE', 'all blocks, all keys, all G functions', ['macro E', 'macro R', 'subkey_e'], stubs=ufn, replay='none', backend=['z3', 'cadical']))
     obs.append(k('wire_D', 'h_wireD', 'all blocks, all keys, all G functions', ['macro D', 'macro R', 'subkey_d'], stubs=ufn, replay='none', backend=['z3', 'cadical']))
@@ -33,6 +48,8 @@ def block_obs(tier):
     for fn, nm in ((1, ''), (2, '2'), (3, '3')):
         obs.append(k('fn_Encr%s' % nm, 'h_fn_E', 'all blocks, all keys', ['beltBlockEncr' + nm], defs=['FN=%d' % fn], backend=['z3', 'cvc5']))
         obs.append(k('fn_Decr%s' % nm, 'h_fn_D', 'all blocks, all keys', ['beltBlockDecr' + nm], defs=['FN=%d' % fn], backend=['z3', 'cvc5']))
+    obs.append(k('mono_Encr2', 'h_mono_E', 'all blocks, all keys (monolithic miter over the real S-box; no verdict expected)', ['beltBlockEncr2'], defs=['FN=2'], timeout=600, tiers=('thorough',)))
+    obs.append(k('mono_DecrEncr2', 'h_mono_DE', 'all blocks, all keys (monolithic; no verdict expected)', ['beltBlockEncr2', 'beltBlockDecr2'], defs=['FN=2'], timeout=600, tiers=('thorough',)))
     return obs
 
 
@@ -51,15 +68,15 @@ def lcl_obs(tier):
         obs.append(k('inc', 'h_inc', w, 'all 2^128 blocks', ['beltBlockIncU32']))
         obs.append(k('mulc', 'h_mulc', w, 'all 2^128 blocks', ['beltBlockMulC']))
         obs.append(k('macros', 'h_macros', w, 'all pairs of blocks', ['beltBlockXor', 'beltBlockXor2', 'beltBlockNeg', 'beltBlockCopy', 'beltBlockSetZero', 'beltHalfBlockIsZero']))
-        obs.append(k('polymul', 'h_polymul', w, 'all pairs of field elements', ['beltPolyMul', 'ppMul', 'ppRedBelt'], timeout=300, backend=['cadical', 'kissat', 'z3']))
+        obs.append(k('polymul', 'h_polymul', w, 'all pairs of field elements', ['beltPolyMul', 'ppMul', 'ppRedBelt'], timeout=600, backend=['cadical', 'kissat', 'z3'], tiers=('thorough',)))
     KX = 'harness/C01/keyexp.c'
     inst = []
     for ln in (16, 24, 32):
         for which in (1, 2):
-            for nm, ok_, oo in (('same', 32, 32), ('keyhi', 40, 32), ('keylo', 24, 32), ('keylo4', 28, 32), ('keyhi4', 36, 32), ('disj', 0, 48), ('adj', 0, 32)):
+            for nm, ok_, oo in ((('same', 32, 32), ('keylo4', 28, 32), ('keyhi4', 36, 32), ('disj', 0, 48)) if tier == 'quick' else (('same', 32, 32), ('keyhi', 40, 32), ('keylo', 24, 32), ('keylo4', 28, 32), ('keyhi4', 36, 32), ('disj', 0, 48), ('adj', 0, 32))):
                 inst.append(('h_kx%d_%d_%s' % (which, ln, nm), '%d, %d, %d, %d' % (ln, which, ok_, oo)))
     obs.append(Ob(name='c01_keyexpand', harness=KX, instances=inst, srcs=CORE + [B + 'belt_block.c'], unwind=100, timeout=120, cbmc_extra=FS,
-                  funcs=['beltKeyExpand', 'beltKeyExpand2'], bound='len 16/24/32 x {key_ == key, key 8/4 octets above/below key_, disjoint, adjacent}: %d placements, all key values' % len(inst)))
+                  funcs=['beltKeyExpand', 'beltKeyExpand2'], bound='len 16/24/32 x beltKeyExpand/2 x {key_ == key, key 4 (thorough: and 8) octets above/below key_, disjoint (thorough: and adjacent)}: %d placements, all key values' % len(inst)))
     return obs
 
 
@@ -89,10 +106,10 @@ def fmt_obs(tier):
     H = 'harness/C01/fmt_b.c'
     ZZ = ['src/math/zz/zz_add.c', 'src/math/zz/zz_mul.c', 'src/math/zz/zz_mod.c', 'src/math/zz/zz_etc.c', 'src/math/ww.c']
     # measured: ~20 ms of solver time per value of mod (60-120 s per range of 4096 values, ~1300 s per count), so
-    #   quick:    count 2 over the whole mod domain in one query (250 s), count 160 (the count of the exception documented
+    #   quick:    count 160 (the count of the exception documented
     #             in belt_fmt.c) on the two top ranges [49152, 53247] and [61440, 65536]
     #   thorough: the counts below over the complete mod domain
-    counts = [2, 160] if q else [1, 2, 3, 8, 64, 150, 159, 160, 161, 299, 300]
+    counts = [160] if q else [1, 2, 3, 8, 64, 150, 159, 160, 161, 299, 300]
     obs = []
     for c in counts:
         T = fmt_thresholds(c)
@@ -130,16 +147,16 @@ def mode_obs(tier):
     K3 = (16, 24, 32)
     hi = 49 if q else 81
     obs.append(m('ecb', 1, range(16, hi + 1), ['belt_ecb.c'], ['beltECBEncr', 'beltECBDecr', 'beltECBStart', 'beltECBStepE', 'beltECBStepD']))
-    obs.append(m('ecb_k', 1, (16, 37), ['belt_ecb.c'], ['beltECBEncr', 'beltECBDecr'], klens=(16, 24)))
+    obs.append(m('ecb_k', 1, (37,) if q else (16, 37), ['belt_ecb.c'], ['beltECBEncr', 'beltECBDecr'], klens=(16, 24)))
     obs.append(m('cbc', 2, range(16, hi + 1), ['belt_cbc.c'], ['beltCBCEncr', 'beltCBCDecr', 'beltCBCStart', 'beltCBCStepE', 'beltCBCStepD']))
-    obs.append(m('cbc_k', 2, (16, 37), ['belt_cbc.c'], ['beltCBCEncr', 'beltCBCDecr'], klens=(16, 24)))
+    obs.append(m('cbc_k', 2, (37,) if q else (16, 37), ['belt_cbc.c'], ['beltCBCEncr', 'beltCBCDecr'], klens=(16, 24)))
     lo = 33 if q else 65
     obs.append(m('cfb', 3, range(0, lo + 1), ['belt_cfb.c'], ['beltCFBEncr', 'beltCFBDecr', 'beltCFBStart', 'beltCFBStepE', 'beltCFBStepD']))
-    obs.append(m('cfb_k', 3, (0, 21), ['belt_cfb.c'], ['beltCFBEncr', 'beltCFBDecr'], klens=(16, 24)))
+    obs.append(m('cfb_k', 3, (21,) if q else (0, 21), ['belt_cfb.c'], ['beltCFBEncr', 'beltCFBDecr'], klens=(16, 24)))
     obs.append(m('ctr', 4, range(0, lo + 1), ['belt_ctr.c'], ['beltCTR', 'beltCTRStart', 'beltCTRStepE']))
-    obs.append(m('ctr_k', 4, (0, 21), ['belt_ctr.c'], ['beltCTR'], klens=(16, 24)))
+    obs.append(m('ctr_k', 4, (21,) if q else (0, 21), ['belt_ctr.c'], ['beltCTR'], klens=(16, 24)))
     obs.append(m('mac', 5, range(0, lo + 1), ['belt_mac.c'], ['beltMAC', 'beltMACStart', 'beltMACStepA', 'beltMACStepG', 'beltMACStepV']))
-    obs.append(m('mac_k', 5, (0, 16, 21), ['belt_mac.c'], ['beltMAC'], klens=(16, 24)))
+    obs.append(m('mac_k', 5, (21,) if q else (0, 16, 21), ['belt_mac.c'], ['beltMAC'], klens=(16, 24)))
     return obs
 
 
@@ -157,12 +174,12 @@ def aead_obs(tier):
                  bound='(data length, associated data length / null header, key length) in %s, all data symbolic' % (sorted(shapes),))
         d.update(kw)
         return Ob(**d)
-    sh = [(0, 0, 32), (0, 17, 32), (5, 0, 32), (16, 16, 16), (21, 7, 24), (33, 20, 32)] if q else \
+    sh = [(0, 0, 32), (21, 17, 24)] if q else \
          [(n1, n2, 32) for n1 in range(0, 36, 5) for n2 in (0, 7, 16, 33)] + [(16, 16, 16), (21, 7, 24)]
     pm = ['stubs/belt_polymul_uf.c']; pms = ['beltPolyMul uninterpreted']
     obs.append(a('dwp', 1, sh, ['belt_dwp.c', 'belt_ctr.c'], ['beltDWPWrap', 'beltDWPUnwrap', 'beltDWPStart', 'beltDWPStepI', 'beltDWPStepE', 'beltDWPStepA', 'beltDWPStepD', 'beltDWPStepG', 'beltDWPStepV'], LCLUF, pm, pms))
-    obs.append(a('che', 2, sh, ['belt_che.c', 'belt_ctr.c'], ['beltCHEWrap', 'beltCHEUnwrap', 'beltCHEStart', 'beltCHEStepI', 'beltCHEStepE', 'beltCHEStepA', 'beltCHEStepD', 'beltCHEStepG', 'beltCHEStepV'], LCLUF, pm, pms))
-    ksh = [(16, 0, 32), (17, 0, 16), (24, 1, 24), (32, 0, 32), (40, 1, 32)] if q else [(n, h, 32) for n in range(16, 65) for h in (0, 1)] + [(17, 0, 16), (24, 1, 24)]
+    obs.append(a('che', 2, sh, ['belt_che.c', 'belt_ctr.c', 'belt_dwp.c'], ['beltCHEWrap', 'beltCHEUnwrap', 'beltCHEStart', 'beltCHEStepI', 'beltCHEStepE', 'beltCHEStepA', 'beltCHEStepD', 'beltCHEStepG', 'beltCHEStepV'], LCLUF, pm, pms))
+    ksh = [(16, 0, 32), (24, 1, 24)] if q else [(n, h, 32) for n in range(16, 65) for h in (0, 1)] + [(17, 0, 16), (24, 1, 24)]
     obs.append(a('kwp', 3, ksh, ['belt_kwp.c', 'belt_wbl.c'], ['beltKWPWrap', 'beltKWPUnwrap', 'beltWBLStart', 'beltWBLStepE', 'beltWBLStepD2'], B + 'belt_lcl.c', [], [],
                  unwind_rules=[(r'^beltWBL\w+\.\d+$', 12)]))
     return obs
